@@ -492,6 +492,9 @@ func (c *StreamConn) Read(p []byte) (int, error) {
 	switch {
 	case c.closed:
 		return 0, &net.OpError{Op: "read", Net: "tcp", Source: c.local, Addr: c.remote, Err: net.ErrClosed}
+	case c.deadlineHit(c.rdl):
+		// like the real poller: an expired deadline fails the call even when data is waiting
+		return 0, &net.OpError{Op: "read", Net: "tcp", Source: c.local, Addr: c.remote, Err: timeoutErr{}}
 	case len(c.rd.buf) > 0:
 		if t := vs.Me(); t != nil {
 			c.rd.hb.Acquire(t)
@@ -550,6 +553,9 @@ func (c *StreamConn) Write(p []byte) (int, error) {
 		switch {
 		case c.closed:
 			return total, &net.OpError{Op: "write", Net: "tcp", Source: c.local, Addr: c.remote, Err: net.ErrClosed}
+		case c.deadlineHit(c.wdl):
+			// like the real poller: an expired deadline fails the call even when the peer could take the bytes
+			return total, &net.OpError{Op: "write", Net: "tcp", Source: c.local, Addr: c.remote, Err: timeoutErr{}}
 		case c.wr.rclosed:
 			return total, &net.OpError{Op: "write", Net: "tcp", Source: c.local, Addr: c.remote, Err: os.NewSyscallError("write", syscall.EPIPE)}
 		case len(c.wr.buf) < pipeCap:
